@@ -28,13 +28,15 @@ type Case struct {
 	OpName string
 	Inputs map[string]interface{}
 	Skip   string // non-empty: outside the space (e.g. rejected by validation)
+	RootID string
+	CtxAlt bool
 }
 
 // Generate draws one case from the explorer.
-func Generate(x *explore.X, f *execx.Fixture, depth, sibs int) *Case {
+func Generate(x *explore.X, f *execx.Fixture, depth, sibs int, strict bool) *Case {
 	g := &gen.DocGen{S: f.G, X: x, MaxDepth: depth, MaxSibs: sibs}
 	doc := g.Query()
-	cs := &Case{Doc: doc, Text: doc.Render()}
+	cs := &Case{Doc: doc, Text: doc.Render(), RootID: "$"}
 	if len(doc.Ops) > 1 {
 		cs.OpName = "A"
 	}
@@ -55,6 +57,14 @@ func Generate(x *explore.X, f *execx.Fixture, depth, sibs int) *Case {
 			cs.Inputs[vd.Name] = dom[k]
 		}
 	}
+	if strict {
+		// the prepared plan is reused across executions: vary the per-request values it
+		// must not remember (root value, context)
+		if x.Choose(2, "root") == 1 {
+			cs.RootID = "$2"
+		}
+		cs.CtxAlt = x.Choose(2, "ctx") == 1
+	}
 	return cs
 }
 
@@ -65,6 +75,9 @@ func Judge(f *execx.Fixture, cs *Case, strict bool, entries []int) (bad string, 
 		return "generator produced non-conformant variables", ""
 	}
 	f.W.NFrags = len(cs.Doc.Frags)
+	f.SetRequest(cs.RootID, cs.CtxAlt)
+	model.RootID = cs.RootID
+	defer func() { model.RootID = "$" }()
 	op := execx.OpNameOf(cs.Doc, cs.OpName)
 	for _, entry := range entries {
 		f.W.OpName = op
@@ -145,7 +158,7 @@ func Run(c *core.Ctx, strict bool) {
 	e.Run(func(x *explore.X, owned bool) uint64 {
 		f.W.X = x
 		f.W.ResetAll()
-		cs := Generate(x, f, depth, 3)
+		cs := Generate(x, f, depth, 3, strict)
 		if cs.Skip != "" {
 			x.StopExpanding()
 			if owned {
@@ -240,7 +253,7 @@ func Replay(c *core.Ctx, p map[string]interface{}, strict bool) (bool, string) {
 	explore.Replay(choices, 0, func(x *explore.X, owned bool) uint64 {
 		f.W.X = x
 		f.W.ResetAll()
-		cs := Generate(x, f, depth, 3)
+		cs := Generate(x, f, depth, 3, strict)
 		text = cs.Text
 		if cs.Skip != "" {
 			bad = cs.Skip
